@@ -255,6 +255,10 @@ class VC:
             return dict(gen)
         return gen
 
+    def call_star(self, func, pos, star, kw):
+        """R10: default semantics of  func(*pos, *star, **kw)"""
+        return func(*pos, *star, **kw)
+
     # builtins that understand proxies ----------------------------------------------------
     def range(self, *a):
         if any(isinstance(x, SInt) for x in a):
